@@ -114,7 +114,7 @@ type Site struct {
 
 func (p *Prog) AllCalls(names ...string) []Site {
 	var out []Site
-	for _, f := range p.Fns {
+	for _, f := range p.Units() { // calls inside new helpers are attributed to the units that reach them
 		if f.Body == nil {
 			continue
 		}
@@ -131,6 +131,19 @@ func (p *Prog) AllCalls(names ...string) []Site {
 // assignment, range, inc/dec, zero value).
 func LocalDefs(f *Fn, v types.Object) []ast.Expr {
 	var out []ast.Expr
+	if v == nil {
+		return nil
+	}
+	owner := ctxFn(f, v.Pos())
+	if owner != f && owner != nil {
+		// a variable of a new helper reached from f: its parameter bindings count as definitions
+		if vv, ok := v.(*types.Var); ok && f.P != nil {
+			for _, b := range f.P.HelperBinds(f)[vv] {
+				out = append(out, b.Arg)
+			}
+		}
+		f = owner.Root()
+	}
 	info := f.Info()
 	ast.Inspect(f.Body, func(n ast.Node) bool {
 		Assigns(n, func(lhs, rhs ast.Expr, _ token.Token) {
@@ -152,6 +165,11 @@ type MultiDef struct {
 
 func LocalMultiDefs(f *Fn, v types.Object) []MultiDef {
 	var out []MultiDef
+	if v != nil {
+		if owner := ctxFn(f, v.Pos()); owner != nil && owner != f {
+			f = owner.Root()
+		}
+	}
 	info := f.Info()
 	ast.Inspect(f.Body, func(n ast.Node) bool {
 		as, ok := n.(*ast.AssignStmt)
@@ -211,6 +229,9 @@ func ParamByName(f *Fn, name string) *types.Var {
 
 // EnclosingStmts returns the chain of statements enclosing node n within f's body (outermost first).
 func EnclosingStmts(f *Fn, target ast.Node) []ast.Node {
+	if owner := ctxFn(f, target.Pos()); owner != nil && owner != f {
+		f = owner
+	}
 	var path, best []ast.Node
 	var walk func(n ast.Node) bool
 	walk = func(n ast.Node) bool {
